@@ -590,6 +590,40 @@ package jsonata
 //@   atcall[C12:all-arguments-passed] iface:Call#0 requires callee_recv == f.fn && len(callee_arg1) == len(f.args)
 //@   loop 0 invariant -1 <= $i0 && len(args) == len(f.args) && err == nil
 
+// --- C17: regex literals as functions -----------------------------------------------------------------------------------------------
+// findMatches asks the engine for *all* leftmost non-overlapping matches (limit -1) of the whole subject; per match it
+// returns the matched text and each group's text (empty for a group that did not take part), cut at the engine's
+// offsets, together with the offsets. newMatchCallable turns the list into the chain of match objects (match, start,
+// end, groups, next) in order; a regex applied to a non-string has no value.
+//@ nonnil field jsonata.regexCallable.re
+//@ func (*regexCallable).findMatches
+//@   props C17 C09
+//@   opaque-arith
+//@   requires f != nil
+//@   ensures [C17:texts-and-offsets-pair-up] len(r0) == len(r1) && (forall p in [off(r0), off(r0) + len(r0)): len(slot(r0, p)) >= 1) && (forall p in [off(r1), off(r1) + len(r1)): len(slot(r1, p)) >= 2)
+//@   ensures [C17:offsets-are-the-engine's] len(r1) == len(ret("regexp.Regexp.FindAllStringSubmatchIndex#0", 0)) && (len(r1) > 0 ==> r1 == ret("regexp.Regexp.FindAllStringSubmatchIndex#0", 0))
+//@   atcall[C17:all-matches-of-the-whole-subject] regexp.Regexp.FindAllStringSubmatchIndex#0 requires callee_arg0 == f.re && same(callee_arg1, s) && callee_arg2 == -1
+//@   loop 0 invariant -1 <= $i0 && len(matches) == len(indexes) && local(matches) && alloc(indexes)
+//@   loop 0 invariant forall m in [0, $i0 + 1): (len(matches[m]) >= 1 && len(matches[m]) * 2 == len(indexes[m]))
+//@   loop 1 invariant -1 <= $i1 && -1 <= $i0 && $i0 + 1 < len(indexes) && len(matches) == len(indexes) && local(matches) && len(matches[$i0 + 1]) * 2 == len(index) && index == indexes[$i0 + 1] && local(matches[$i0 + 1])
+//@   loop 1 invariant forall m in [0, $i0 + 1): (len(matches[m]) >= 1 && len(matches[m]) * 2 == len(indexes[m]))
+//@ func newMatchCallable
+//@   props C17 C09
+//@   requires len(matches) <= len(indexes) && (forall p in [off(matches), off(matches) + len(matches)): len(slot(matches, p)) >= 1) && (forall p in [off(indexes), off(indexes) + len(indexes)): len(slot(indexes, p)) >= 2)
+//@   ensures result != nil
+//@   assigns nothing
+//@   decreases[matchchain] len(matches)
+//@   atstore[C17:first-match-text] jsonata.matchCallable.match requires same(value, matches[0][0])
+//@   atstore[C17:first-match-start] jsonata.matchCallable.start requires value == indexes[0][0]
+//@   atstore[C17:first-match-end] jsonata.matchCallable.end requires value == indexes[0][1]
+//@   atcall[C17:next-is-the-rest-in-order] newMatchCallable#0 requires len(callee_matches) == len(matches) - 1 && arr(callee_matches) == arr(matches) && off(callee_matches) == off(matches) + 1 && arr(callee_indexes) == arr(indexes) && off(callee_indexes) == off(indexes) + 1
+//@ func (*regexCallable).Call
+//@   props C17 C09
+//@   requires f != nil
+//@   ensures [C17:no-subject-no-value] len(argv) < 1 ==> (!valid(r0) && r1 == nil)
+//@   ensures r1 != nil ==> !valid(r0)
+//@   assigns heap
+
 // --- C11 / C14: literals, array and object constructors ---------------------------------------------------------------
 // JSON texts denote themselves: string / number / boolean literals evaluate to their value, null to the nil pointer
 // that marshals as null; array constructors drop absent items, keep nested array constructors as units (no
